@@ -1095,6 +1095,14 @@ func evalLogicComparator(vm *r.VM, expr *syntax.LogicExpr) (*value.Bool, error) 
 
 // [elem] 为 [elem] -> [bool]
 func compareLogicXEQ(left r.Element, right r.Element) (bool, error) {
+	return compareLogicXEQDepth(left, right, 0)
+}
+
+// (depth: the nesting level of the items being compared, bounded like value.CompareValues)
+func compareLogicXEQDepth(left r.Element, right r.Element, depth int) (bool, error) {
+	if depth > value.MaxCompareDepth {
+		return false, zerr.CompareDepthExceeded(value.MaxCompareDepth)
+	}
 	switch vl := left.(type) {
 	case *value.Null:
 		if _, ok := right.(*value.Null); ok {
@@ -1130,7 +1138,7 @@ func compareLogicXEQ(left r.Element, right r.Element) (bool, error) {
 			}
 			// compare each item
 			for idx := range vla {
-				cmpVal, err := compareLogicXEQ(vla[idx], vra[idx])
+				cmpVal, err := compareLogicXEQDepth(vla[idx], vra[idx], depth+1)
 				if err != nil {
 					return false, err
 				}
@@ -1160,7 +1168,7 @@ func compareLogicXEQ(left r.Element, right r.Element) (bool, error) {
 				if !ok {
 					return false, nil
 				}
-				cmpVal, err := compareLogicXEQ(vla[idx], vrr)
+				cmpVal, err := compareLogicXEQDepth(vla[idx], vrr, depth+1)
 				if err != nil {
 					if cmpErr == nil {
 						cmpErr = err
